@@ -5,7 +5,7 @@ from ..gen import tree as treegen, req as reqgen
 from . import c07
 
 FAULTS = ["valid", "crasher", "mutant", "early-close", "rst-before-send", "rst-after-send", "rst-mid-request", "half-request-then-close", "idle-then-close", "oversized", "burst",
-          "rst-during-big-response", "close-without-reading-big-response", "never-read-then-close", "stall-all-workers-then-close", "half-close-then-read", "drip-then-close"]
+          "rst-during-big-response", "close-without-reading-big-response", "never-read-then-close", "stall-all-workers-then-close", "half-close-then-read", "drip-then-close", "clock-jump"]
 # request handling that fails internally, over real sockets: the harness runs the real accept loop and pool with an
 # application that panics / errs / stalls when the request asks for it (vh srv)
 FAULTS_MIXED = ["handler-panic", "handler-panic-long-message", "handler-panic-non-string", "handler-err", "handler-panic-then-rst", "handler-slow-then-rst", "handler-slow-then-close", "handler-panic-burst"]
@@ -125,6 +125,9 @@ def step(srv, kind, rng, valid, crashers, mutants):
             except OSError:
                 pass
             s.close()
+        elif kind == "clock-jump":
+            # time passes (a minute, an hour, more than a day) between two connections; no-op without the clock shim
+            srv.advance_clock(rng.choice([61, 3700, 90000]))
         elif kind.startswith("handler-"):
             f = srv.probe_path
             tag = {"handler-panic": "__panic", "handler-panic-long-message": "__panic_long", "handler-panic-non-string": "__panic_any", "handler-err": "__err",
@@ -366,7 +369,7 @@ def run(c):
                 if srv is None or not srv.alive():
                     if srv is not None:
                         srv.cleanup()
-                    srv = server.Server(t.root, threads=n, trace=True)
+                    srv = server.Server(t.root, threads=n, trace=True, virtual_time=True)
                     if not srv.started:
                         c.inconc("server with %d workers did not start" % n)
                         srv.cleanup()
@@ -412,7 +415,7 @@ def mixed_histories(c, t, rng, valid, crashers, mutants, probe_file):
     histories = []
     for i, k in enumerate(FAULTS_MIXED):
         histories.append((ns[i % 4], [k] * (ns[i % 4] + 2)))
-    alphabet = FAULTS_MIXED * 2 + ["valid", "rst-after-send", "early-close", "half-request-then-close", "stall-all-workers-then-close"]
+    alphabet = FAULTS_MIXED * 2 + ["clock-jump", "valid", "rst-after-send", "early-close", "half-request-then-close", "stall-all-workers-then-close"]
     for i in range(8 if c.quick else 200):
         n = ns[i % 4]
         histories.append((n, [rng.choice(alphabet) for _ in range(rng.choice([3, n + 2, 2 * n + 5, 30]))]))
@@ -423,7 +426,7 @@ def mixed_histories(c, t, rng, valid, crashers, mutants, probe_file):
             if srv is None or not srv.alive():
                 if srv is not None:
                     srv.cleanup()
-                srv = server.Server(t.root, threads=n, trace=True, mixed_app=True)
+                srv = server.Server(t.root, threads=n, trace=True, mixed_app=True, virtual_time=True)
                 srv.probe_path = probe_file
                 if not srv.started:
                     c.inconc("harness server with %d workers did not start" % n)
